@@ -489,7 +489,7 @@ impl Prop for C10 {
         ]
     }
     fn strategy(&self, tier: Tier) -> Option<(BoxedStrategy<Case>, u32)> {
-        Some((crate::gen::extend::sheet().boxed(), tier.pick(1_200, 20_000)))
+        Some((crate::gen::extend::sheet().boxed(), tier.pick(600, 20_000)))
     }
     fn enumerate(&self, _tier: Tier) -> Vec<Case> {
         crate::gen::extend::directed()
